@@ -163,10 +163,17 @@ type Replay struct {
 	Stdout  string   `json:"stdout_tail,omitempty"`
 	Stderr  string   `json:"stderr_tail,omitempty"`
 	Kept    string   `json:"scratch_dir,omitempty"`
+	Graph   []string `json:"graph,omitempty"`
 }
 
 func mkReplay(idx int, e *Env, o *Obs) Replay {
 	r := Replay{Case: idx, History: e.Log}
+	for _, t := range e.Spec.Targets {
+		r.Graph = append(r.Graph, fmt.Sprintf("%s deps=%v tags=%v checks=%d outs=%d", t.Label(), t.Deps, t.Tags, len(t.Checks), len(t.AllOuts())))
+	}
+	for _, a := range e.Spec.Aliases {
+		r.Graph = append(r.Graph, fmt.Sprintf("alias //%s:%s -> %s", a.Pkg, a.Name, a.Actual))
+	}
 	if o != nil && o.Res != nil {
 		r.Stdout = tail(o.Res.Stdout, 1500)
 		r.Stderr = tail(o.Res.Stderr, 1500)
